@@ -4,6 +4,7 @@
 package c17
 
 import (
+	"time"
 	"bytes"
 	"encoding/binary"
 	"encoding/hex"
@@ -26,7 +27,7 @@ import (
 	"verif/harness/lp"
 )
 
-const rule = "cases = byte strings: every 1-2 byte string and 3-byte strings (sampled in quick, all in thorough) alone and followed by a valid tail; structure-aware random CBOR with lying lengths / reserved additional info / misplaced breaks / wrong tag contents / deep nesting; mutations of valid logger output; every cut point of valid multi-event streams. Entry points: Cbor2JsonManyObjects, DecodeIfBinaryToBytes/String, ConsoleWriter.Write, journald writer's Write (no journal socket in the sandbox: decoding and field conversion run, the send fails). oracle = call returns, no panic escapes, output <= 1 KiB + 64*len(input) and bytes allocated <= 64KiB + 64*len(input) + 6*len(output), a returned result unchanged by a later decode, prefix stability. non-trivial = input reaches a length-prefixed read, a tag handler or nesting depth >= 2 (header scan); distinct = FNV-64 of the input, enumerations by construction"
+const rule = "cases = byte strings: every 1-2 byte string and 3-byte strings (sampled in quick, all in thorough) alone and followed by a valid tail; structure-aware random CBOR with lying lengths / reserved additional info / misplaced breaks / wrong tag contents / deep nesting; mutations of valid logger output; every cut point of valid multi-event streams (also: one whole event plus part of the next through ConsoleWriter.Write, which must render the whole event as it does alone). Entry points: Cbor2JsonManyObjects, DecodeIfBinaryToBytes/String, ConsoleWriter.Write, journald writer's Write (no journal socket in the sandbox: decoding and field conversion run, the send fails). oracle = call returns, no panic escapes, output <= 1 KiB + 64*len(input) and bytes allocated <= 64KiB + 64*len(input) + 6*len(output), a returned result unchanged by a later decode, prefix stability. non-trivial = input reaches a length-prefixed read, a tag handler or nesting depth >= 2 (header scan); distinct = FNV-64 of the input, enumerations by construction"
 
 var rec = ev.New("C17", rule)
 
@@ -695,6 +696,32 @@ func checkCuts(all []byte, bounds []int) *cutFailure {
 			thin = append(thin, cuts[i*len(cuts)/keep])
 		}
 		cuts = append(thin, len(all))
+	}
+	// the same through ConsoleWriter (which renders the first event of what one Write hands it): a Write that
+	// carries one whole event followed by part of the next renders that whole event as it does alone
+	if len(bounds) >= 2 {
+		var ref bytes.Buffer
+		var rerr error
+		if p := call(func() {
+			_, rerr = zerolog.ConsoleWriter{Out: &ref, NoColor: true, TimeLocation: time.UTC}.Write(all[:bounds[0]])
+		}); p != "" {
+			return &cutFailure{hex.EncodeToString(all), bounds, bounds[0], p}
+		}
+		if rerr == nil {
+			span := bounds[1] - bounds[0]
+			step := span/40 + 1
+			for k := bounds[0] + 1; k < bounds[1]; k += step {
+				var out bytes.Buffer
+				if p := call(func() {
+					zerolog.ConsoleWriter{Out: &out, NoColor: true, TimeLocation: time.UTC}.Write(all[:k])
+				}); p != "" {
+					return &cutFailure{hex.EncodeToString(all), bounds, k, p}
+				}
+				if !bytes.Equal(out.Bytes(), ref.Bytes()) {
+					return &cutFailure{hex.EncodeToString(all), bounds, k, fmt.Sprintf("ConsoleWriter.Write of one whole event followed by %d bytes of the next wrote %q; for the whole event alone it writes %q", k-bounds[0], out.Bytes(), ref.Bytes())}
+				}
+			}
+		}
 	}
 	for _, k := range cuts {
 		m := 0
